@@ -67,3 +67,29 @@ Qed.
 (* a sibling whose name merely extends the root's name is outside *)
 Example sibling_prefix_name : is_prefix ["x"; "root"] ["x"; "root2"; "decoy.yaml"] = false.
 Proof. reflexivity. Qed.
+
+(* ---- nested SetRoot calls can only narrow ---- *)
+Lemma is_prefix_trans a : forall b c, is_prefix a b = true -> is_prefix b c = true -> is_prefix a c = true.
+Proof.
+  induction a as [|x a IH]; intros b c H1 H2; [reflexivity|].
+  destruct b as [|y b]; [discriminate|]. destruct c as [|z c]; [discriminate|].
+  cbn in *. apply andb_prop in H1 as [E1 H1]. apply andb_prop in H2 as [E2 H2].
+  apply String.eqb_eq in E1. apply String.eqb_eq in E2. subst. rewrite String.eqb_refl. cbn. exact (IH b c H1 H2).
+Qed.
+
+Theorem set_roots_narrow ps : forall cur final, set_roots cur ps = Some final -> is_prefix cur final = true.
+Proof.
+  induction ps as [|p r IH]; intros cur final H; cbn in H.
+  - inversion H. apply is_prefix_refl.
+  - unfold set_root in H. destruct (is_prefix cur p) eqn:E; [|discriminate].
+    apply (is_prefix_trans cur p final E). exact (IH p final H).
+Qed.
+
+(* so whatever is opened after any sequence of successful SetRoot calls lies under the FIRST root as well *)
+Corollary nested_roots_confine fs first ps final fuel p d :
+  set_roots first ps = Some final -> root_open fuel fs final p = Ok d ->
+  exists q, is_prefix first q = true /\ tfs_lookup fs q = Some (TFile (Ok d)).
+Proof.
+  intros Hs Ho. destruct (root_open_inside fs final fuel p d Ho) as (q & Hq & Hl).
+  exists q. split; [|exact Hl]. exact (is_prefix_trans first final q (set_roots_narrow ps first final Hs) Hq).
+Qed.
